@@ -100,6 +100,17 @@ def check(repo: Repo, run: Run) -> None:
     ct = repo.mod("celtypes")
     ev = repo.mod("evaluation")
     impls = matrix.impl_table(repo)
+    # K7: no macro helper without an absorbing element leaves its loop early (rule shared with C03.S3): an error of
+    # a later element must surface - "never values"
+    from .c03 import check_macro_extent
+
+    run.floor("C09.K7", check_macro_extent(repo, run, "C09.K7"), 5)
+    # K8: concatenation of lists / strings / bytes yields the CEL class again, so that size(), indexing and a further
+    # + on the result follow the CEL definitions (instances shared with C13.W1)
+    run.borrow(repo, "C13", "C09.K8", lambda o: o["rule"] == "C13.W1" and "add__" in o["key"] and any(k in o["key"] for k in ("ListType", "StringType", "BytesType")), 3)
+    # K9: all / exists absorb element errors: the compiled helpers keep an element's exception as a value
+    # (instances shared with C02.T6)
+    run.borrow(repo, "C02", "C09.K9", lambda o: o["rule"] == "C02.T6", 2)
     # K1 -----------------------------------------------------------------
     impl = impls.get("_[_]")
     if impl is None:
